@@ -81,6 +81,30 @@ def parseOp : List String → Option Op
   | ["conc", t, r] => do pure (.conc (← natTok t) (← natTok r))
   | _ => none
 
+/-- how an observation is spelled: the trace/context.h helpers `GetSpan(ctx)` / `IsRootSpan(ctx)` are reads of one key
+    (`kSpanKey` / `kIsRootSpanKey`) spelled as the helper answers -/
+inductive Render where
+  | plain
+  | getSpan
+  | isRoot
+
+def isRootKey : Bytes := "is_root_span".toUTF8.toList
+
+/-- operations that are another spelling of a model operation (no model code of their own):
+    `sspan t p i` = `trace::SetSpan(ctx[p], span[i])` = `ctx[p].SetValue(kSpanKey, span[i])`;
+    `gspan t p` = `trace::GetSpan(ctx[p])`; `isroot t p` = `trace::IsRootSpan(ctx[p])`;
+    `storage t k` = `RuntimeContext::SetRuntimeContextStorage(<another thread-local storage>)` followed by `GetCurrent()`:
+    the stacks are what they were -/
+def parseOpX (toks : List String) : Option (Op × Render) :=
+  match toks with
+  | ["sspan", t, p, i] => do pure (.set (← natTok t) (← natTok p) Gen.ctxSpanKey (.span (← natTok i)), .plain)
+  | ["gspan", t, p] => do pure (.get (← natTok t) (← natTok p) Gen.ctxSpanKey, .getSpan)
+  | ["isroot", t, p] => do pure (.get (← natTok t) (← natTok p) isRootKey, .isRoot)
+  | ["storage", t, k] => do
+    let k ← natTok k
+    if k < 3 then pure (.cur (← natTok t), .plain) else none
+  | _ => (parseOp toks).map fun o => (o, .plain)
+
 def answers (pool : List Bytes) (c : Chain) : String :=
   "[" ++ ",".intercalate (pool.map fun k => showVal (lookup k c) ++ (if hasKey k c then "+" else "-")) ++ "]"
 
@@ -97,21 +121,29 @@ def showObs (pool : List Bytes) (st : Store) : Obs → String
   | .stack s => "[" ++ ",".intercalate (s.map fun c => s!"c{c}") ++ "]"
   | .concOk => "conc=ok"
 
+def showObsX (pool : List Bytes) (st : Store) (r : Render) (o : Obs) : String :=
+  match r, o with
+  | .getSpan, .value (.span i) _ => s!"sp:{i}"
+  | .getSpan, .value _ _ => "invalid"
+  | .isRoot, .value (.bool b) _ => "root=" ++ bool01 b
+  | .isRoot, .value _ _ => "root=0"
+  | _, o => showObs pool st o
+
 /-- per-op line: observation, the executing thread's depth and top, how many earlier contexts exist
     (the harness re-queries each of them: `older_unaffected`), and any other thread whose (depth, top) moved -/
 def runOps (pool : List Bytes) : State → List (List String) → List String → Option (List String)
   | _, [], acc => some acc.reverse
   | s, o :: os, acc =>
-    match parseOp o with
+    match parseOpX o with
     | none => none
-    | some op =>
+    | some (op, rd) =>
       match step s op with
       | none => none
       | some (s', ob) =>
         let t := op.thread
         let leaks := (List.range s.nthreads).filter fun u =>
           u ≠ t ∧ ((s'.stacks u).length ≠ (s.stacks u).length ∨ top (s'.stacks u) ≠ top (s.stacks u))
-        let line := showObs pool s'.store ob ++ s!" @{(s'.stacks t).length}:c{top (s'.stacks t)} chk={s.store.size}" ++
+        let line := showObsX pool s'.store rd ob ++ s!" @{(s'.stacks t).length}:c{top (s'.stacks t)} chk={s.store.size}" ++
           String.join (leaks.map fun u => s!" LEAK:t{u}")
         runOps pool s' os (line :: acc)
 
